@@ -134,14 +134,16 @@ class PackCommitBuilder(VersionedFileCommitBuilder):
         )
 
     def _heads(self, file_id, revision_ids):
-        if self.repository._fallback_repositories:
-            # The per-file graph only covers the texts held by this
-            # repository itself; in a stacked repository the parents' texts
-            # may live in a fallback, so use the revision graph (which spans
-            # the fallbacks) as the base class does.
-            return VersionedFileCommitBuilder._heads(self, file_id, revision_ids)
         keys = [(file_id, revision_id) for revision_id in revision_ids]
-        return {key[1] for key in self._file_graph.heads(keys)}
+        if self.repository._fallback_repositories:
+            # The text index graph only covers the texts held by this
+            # repository itself; in a stacked repository the parents' texts
+            # may live in a fallback, so use the per-file graph over
+            # repository.texts, which spans the fallbacks.
+            file_graph = self.repository.get_file_graph()
+        else:
+            file_graph = self._file_graph
+        return {key[1] for key in file_graph.heads(keys)}
 
 
 # Pack primitives are provided by bzrformats; breezy still wraps them
